@@ -32,7 +32,7 @@ theorem member_keys_nodup (es : List ChatEv) (cid : Nat) : ((ChatWorld.init.afte
 /-- Histories shorter than the id space never hand a remembered id to a newcomer. -/
 theorem short_history_no_stale_reuse (es : List ChatEv) (h : es.length < 65536) :
     (ChatWorld.init.after es).NoStaleReuse :=
-  (ChatWorld.after_fresh es ChatWorld.init ChatWorld.Inv.init ChatWorld.Fresh.init (by simpa [ChatWorld.init, Registry.init] using h)).nsr
+  (ChatWorld.after_fresh es ChatWorld.init ChatWorld.Inv.init ChatWorld.Fresh.init (by show 0 + es.length < 65536; omega)).nsr
 
 -- ------------------------------------------------------------------ public chat
 
@@ -127,9 +127,13 @@ theorem join_notice_audience (w : ChatWorld) (hw : w.Inv) (hns : w.NoStaleReuse)
       ((w.connectedMembers cid).map (·.2)).Nodup := by
   intro outs
   have hid := (Registry.get_some hg).2
-  refine ⟨_, ?_, rfl, hid, rfl, w.members_delivery hns cid _ (fun _ => rfl), w.connectedMembers_nodup hw cid⟩
-  show (w.step (.join a r cid)).2 = _
-  simp only [ChatWorld.step, hg, stepJoin]
+  have houts : ∃ fs, outs = (w.members cid).map (fun m => mkTran 117 m.1 ([⟨114, be32 cid⟩] ++ whoFieldsFull c)) ++ [mkReply c r fs] := by
+    refine ⟨_, ?_⟩
+    show (w.step (.join a r cid)).2 = _
+    simp only [ChatWorld.step, hg, stepJoin]
+    rfl
+  obtain ⟨fs, houts⟩ := houts
+  exact ⟨mkReply c r fs, houts, rfl, hid, rfl, w.members_delivery hns cid _ (fun _ => rfl), w.connectedMembers_nodup hw cid⟩
 
 /-- A leave removes the leaver first and is then announced (type 118) to the remaining connected
     members, each once — not to the leaver. -/
@@ -198,7 +202,10 @@ theorem chat_text_format (name msg : Bytes) :
     chatText name false msg = ([0x0d] ++ pad13 name ++ [0x3a, 0x20, 0x20] ++ msg).take 8192 ∧
     chatText name true msg = ([0x0d, 0x2a, 0x2a, 0x2a, 0x20] ++ name ++ [0x20] ++ msg).take 8192 ∧
     (∀ e, (chatText name e msg).length ≤ 8192) := by
-  refine ⟨rfl, rfl, ?_⟩
+  refine ⟨rfl, ?_, ?_⟩
+  · unfold chatText
+    simp only [if_true]
+    rfl
   intro e
   unfold chatText
   simp only [limitChatMsg, List.length_take]
@@ -263,72 +270,77 @@ theorem decliner_is_silent (w : ChatWorld) (i r cid : Nat) (hcid : cid < 4294967
 -- ------------------------------------------------------------------ replies (used by C14 as well)
 
 /-- Every chat request yields at most one reply-flagged transaction; it is addressed to the requester
-    and carries the request's id. -/
+    and carries the request's id.  (Login and disconnect produce no reply at all.) -/
 theorem step_replies (w : ChatWorld) (e : ChatEv) :
-    ((w.step e).2.filter (·.isReply)).length ≤ 1 ∧
-    ∀ o ∈ (w.step e).2, o.isReply = true → some o.to = e.actor ∧ o.reqId = e.req := by
+    match e.actor with
+    | some a => ReplyOK a e.req (w.step e).2
+    | none => (w.step e).2 = [] := by
   cases e with
   | login l an ac nm ic =>
-    simp only [ChatWorld.step, stepLogin]
-    split <;> simp
+    simp only [ChatEv.actor, ChatWorld.step, stepLogin]
+    split <;> rfl
   | disconnect a =>
-    simp only [ChatWorld.step]
+    simp only [ChatEv.actor, ChatWorld.step]
     split
-    · simp
-    · simp [stepDisconnect, mkTran, List.filter_map, Function.comp]
+    · exact ReplyOK.nil
+    · exact ReplyOK.nonreplies (by intro o ho; obtain ⟨x, _, rfl⟩ := List.mem_map.mp ho; rfl)
   | inviteNew a r t c' =>
-    simp only [ChatWorld.step]
+    simp only [ChatEv.actor, ChatEv.req, ChatWorld.step]
     split
-    · simp
+    · exact ReplyOK.nil
     · rename_i c hg
       have hid := (Registry.get_some hg).2
       simp only [stepInviteNew]
       split
-      · simp [mkErr, ChatEv.actor, ChatEv.req, hid]
+      · exact ReplyOK.append_reply (l := []) (by intro o h; cases h) hid rfl
       · split
-        · simp
-        · split <;> simp [mkTran, mkReply, ChatEv.actor, ChatEv.req, hid, List.filter_cons]
+        · exact ReplyOK.nil
+        · exact ReplyOK.append_reply (l := [_]) (by
+            intro o ho; simp only [List.mem_singleton] at ho; subst ho; split <;> rfl) hid rfl
   | invite a r t c' =>
-    simp only [ChatWorld.step]
+    simp only [ChatEv.actor, ChatEv.req, ChatWorld.step]
     split
-    · simp
+    · exact ReplyOK.nil
     · rename_i c hg
       have hid := (Registry.get_some hg).2
       simp only [stepInvite]
-      split <;> simp [mkErr, mkTran, mkReply, ChatEv.actor, ChatEv.req, hid, List.filter_cons]
+      split
+      · exact ReplyOK.append_reply (l := []) (by intro o h; cases h) hid rfl
+      · exact ReplyOK.append_reply (l := [_]) (by
+          intro o ho; simp only [List.mem_singleton] at ho; subst ho; rfl) hid rfl
   | join a r c' =>
-    simp only [ChatWorld.step]
+    simp only [ChatEv.actor, ChatEv.req, ChatWorld.step]
     split
-    · simp
+    · exact ReplyOK.nil
     · rename_i c hg
       have hid := (Registry.get_some hg).2
       simp only [stepJoin]
-      simp [mkTran, mkReply, ChatEv.actor, ChatEv.req, hid, List.filter_append, List.filter_map, Function.comp]
+      exact ReplyOK.append_reply (by intro o ho; obtain ⟨x, _, rfl⟩ := List.mem_map.mp ho; rfl) hid rfl
   | leave a r c' =>
-    simp only [ChatWorld.step]
+    simp only [ChatEv.actor, ChatEv.req, ChatWorld.step]
     split
-    · simp
-    · simp [stepLeave, mkTran, List.filter_map, Function.comp]
+    · exact ReplyOK.nil
+    · exact ReplyOK.nonreplies (by intro o ho; obtain ⟨x, _, rfl⟩ := List.mem_map.mp ho; rfl)
   | decline a r c' =>
-    simp only [ChatWorld.step]
+    simp only [ChatEv.actor, ChatEv.req, ChatWorld.step]
     split
-    · simp
-    · simp [stepDecline, mkTran, List.filter_map, Function.comp]
+    · exact ReplyOK.nil
+    · exact ReplyOK.nonreplies (by intro o ho; obtain ⟨x, _, rfl⟩ := List.mem_map.mp ho; rfl)
   | setSubject a r c' s =>
-    simp only [ChatWorld.step]
+    simp only [ChatEv.actor, ChatEv.req, ChatWorld.step]
     split
-    · simp
-    · simp [stepSetSubject, mkTran, List.filter_map, Function.comp]
+    · exact ReplyOK.nil
+    · exact ReplyOK.nonreplies (by intro o ho; obtain ⟨x, _, rfl⟩ := List.mem_map.mp ho; rfl)
   | send a r c' o m =>
-    simp only [ChatWorld.step]
+    simp only [ChatEv.actor, ChatEv.req, ChatWorld.step]
     split
-    · simp
+    · exact ReplyOK.nil
     · rename_i c hg
       have hid := (Registry.get_some hg).2
       simp only [stepSend]
       split
-      · simp [mkErr, ChatEv.actor, ChatEv.req, hid]
-      · split <;> simp [mkTran, List.filter_map, Function.comp]
+      · exact ReplyOK.append_reply (l := []) (by intro o h; cases h) hid rfl
+      · split <;> exact ReplyOK.nonreplies (by intro o ho; obtain ⟨x, _, rfl⟩ := List.mem_map.mp ho; rfl)
 
 /-! Obligations over the constants regenerated from /repo's source on every run. -/
 
